@@ -135,7 +135,7 @@ Print Assumptions c10_entry_first_strong.
 
 (** Completeness outside the class "a CancelRequest with this key was already served since the
     checkout" (computable guard), for every variant ... *)
-Theorem c10_cancel_reaches_holder_guarded : forall E v, key_inj E -> forall ops c s,
+Theorem c10_cancel_reaches_holder_guarded : forall E v, key_inj E -> reload_prunes v = false -> forall ops c s,
   sv (run E v ops) s = HeldBy c -> known_cancel_once E v ops c = false ->
   cancel_out (run E v ops) (key E c) = Contact (tgt E s).
 Proof. exact reaches_holder_guarded. Qed.
@@ -143,32 +143,59 @@ Print Assumptions c10_cancel_reaches_holder_guarded.
 
 (** ... and unguarded as soon as serving a CancelRequest leaves the map alone. *)
 Theorem c10_cancel_drop_inert_complete : forall E v, key_inj E -> cancel_drop_removes v = false ->
-  forall ops c s, sv (run E v ops) s = HeldBy c ->
+  reload_prunes v = false -> forall ops c s, sv (run E v ops) s = HeldBy c ->
   cancel_out (run E v ops) (key E c) = Contact (tgt E s).
 Proof. exact reaches_holder. Qed.
 Print Assumptions c10_cancel_drop_inert_complete.
+
+(** A configuration reload touches neither the map nor who borrows what ... *)
+Theorem c10_reload_inert : forall E v, reload_prunes v = false -> forall st l,
+  csm (step E v st (Reload l)) = csm st /\ cl (step E v st (Reload l)) = cl st /\
+  gcancel (step E v st (Reload l)) = gcancel st /\
+  (forall s c, sv (step E v st (Reload l)) s = HeldBy c <-> sv st s = HeldBy c).
+Proof. exact reload_inert. Qed.
+Print Assumptions c10_reload_inert.
+
+(** ... so the entry of a holder survives any number of reloads until it releases: every key does
+    after the reloads exactly what it did before, and the same clients borrow the same sessions.
+    (With [c10_cancel_exact]/[c10_cancel_reaches_holder], whose schedules include [Reload] at any
+    position: the holder's key still reaches the holder's own session, nobody else's.) *)
+Theorem c10_holder_survives_reloads : forall E v, reload_prunes v = false -> forall ops ls,
+  (forall k, cancel_out (run E v (ops ++ map Reload ls)) k = cancel_out (run E v ops) k) /\
+  (forall s c, sv (run E v (ops ++ map Reload ls)) s = HeldBy c <-> sv (run E v ops) s = HeldBy c).
+Proof. exact holder_survives_reloads. Qed.
+Print Assumptions c10_holder_survives_reloads.
 
 (* ================================================================ the mutants (code before 1e593b9) *)
 
 (** F13, the exit window: with the order "connection back to the pool, then entry removed"
     another client borrows the connection and a CancelRequest with the FIRST client's key is
     forwarded to it. *)
-Theorem c10_exit_window_refuted : forall cd,
+Theorem c10_exit_window_refuted : forall cd rp,
   exists ops c1 c2 s, c1 <> c2 /\ key ex_env c1 <> key ex_env c2 /\
-    sv (run ex_env (mkVariant cd false) ops) s = HeldBy c2 /\
-    cphase (cl (run ex_env (mkVariant cd false) ops) c1) = Exiting /\
-    cancel_out (run ex_env (mkVariant cd false) ops) (key ex_env c1) = Contact (tgt ex_env s).
+    sv (run ex_env (mkVariant cd false rp) ops) s = HeldBy c2 /\
+    cphase (cl (run ex_env (mkVariant cd false rp) ops) c1) = Exiting /\
+    cancel_out (run ex_env (mkVariant cd false rp) ops) (key ex_env c1) = Contact (tgt ex_env s).
 Proof. exact exit_window_refuted. Qed.
 Print Assumptions c10_exit_window_refuted.
 
 (** F28, cancel once: when the drop of the value that served a CancelRequest removes the key it
     carried, a second CancelRequest during the same checkout is silently ignored. *)
-Theorem c10_cancel_once_refuted : forall ef,
-  exists ops c s, sv (run ex_env (mkVariant true ef) ops) s = HeldBy c /\
-    outcomes ex_env (mkVariant true ef) ops = [Contact (tgt ex_env s)] /\
-    cancel_out (run ex_env (mkVariant true ef) ops) (key ex_env c) = Silent.
+Theorem c10_cancel_once_refuted : forall ef rp,
+  exists ops c s, sv (run ex_env (mkVariant true ef rp) ops) s = HeldBy c /\
+    outcomes ex_env (mkVariant true ef rp) ops = [Contact (tgt ex_env s)] /\
+    cancel_out (run ex_env (mkVariant true ef rp) ops) (key ex_env c) = Silent.
 Proof. exact cancel_once_refuted. Qed.
 Print Assumptions c10_cancel_once_refuted.
+
+(** Reload pruning (not in the code; the mutant the check must notice): if a configuration
+    reload dropped the entries that point to an address which left the configuration, a client
+    still running a statement on the old pool's connection could no longer cancel it. *)
+Theorem c10_reload_prune_refuted : forall cd ef,
+  exists ops c s, sv (run ex_env (mkVariant cd ef true) ops) s = HeldBy c /\
+    cancel_out (run ex_env (mkVariant cd ef true) ops) (key ex_env c) = Silent.
+Proof. exact reload_prune_refuted. Qed.
+Print Assumptions c10_reload_prune_refuted.
 
 (* ================================================================ spec validation *)
 
@@ -212,6 +239,20 @@ Proof. vm_compute. reflexivity. Qed.
 Example ex_twice_code : outcomes ex_env code_variant [Checkout 0 0; Cancel k0; CancelDrop k0; Cancel k0] = [Contact t0; Contact t0].
 Proof. vm_compute. reflexivity. Qed.
 Example ex_twice_mutant : outcomes ex_env v_orig [Checkout 0 0; Cancel k0; CancelDrop k0; Cancel k0] = [Contact t0; Silent].
+Proof. vm_compute. reflexivity. Qed.
+
+(** reload while a statement runs: the pool moves away from s0's address, c0 keeps s0 until it
+    releases; its key reaches s0 before and after the reload, and its next checkout is elsewhere *)
+Example ex_reload_code : outcomes ex_env code_variant
+  [Checkout 0 0; Cancel k0; CancelDrop k0; Reload [0]; Cancel k0; CancelDrop k0; Cancel k1; Reload [0];
+   Cancel k0; ReleaseNormal 0 true; Cancel k0; Checkout 0 1; Cancel k0]
+  = [Contact t0; Contact t0; Silent; Contact t0; Silent; Contact t1].
+Proof. vm_compute. reflexivity. Qed.
+Example ex_reload_idle_retired :
+  sv (run ex_env code_variant [Checkout 0 0; ReleaseNormal 0 true; Reload [0; 1]; Checkout 1 0]) 0 = Closed.
+Proof. vm_compute. reflexivity. Qed.
+Example ex_reload_mutant : outcomes ex_env (mkVariant false true true)
+  [Checkout 0 0; Cancel k0; Reload [0]; Cancel k0] = [Contact t0; Silent].
 Proof. vm_compute. reflexivity. Qed.
 
 (** the guards separate exactly these schedules *)
